@@ -291,6 +291,7 @@ class World:
         self.fav = None
         self.accessor_results = set()
         self.last_derived = None
+        self.last_deleted = None
         self.verdicts = []      # (verdict operation, object) pairs issued so far
         self.recent_atol = 0
 
@@ -1012,6 +1013,12 @@ def gen_op(rng, W, step, atol_changed):
         if prev and rng.random() < 0.7:
             name, eid = rng.choice(prev)
             return {"op": name, "args": [eid], "p": p}
+    if W.last_deleted is not None:
+        # a dropped table is asked for again (alone, while its siblings of the same builder are still there)
+        c, k = W.last_deleted
+        W.last_deleted = None
+        if c in e and rng.random() < 0.5:
+            return {"op": "cache_get", "args": [c], "p": {"k": k}}
     if W.last_derived is not None and W.last_derived in e and rng.random() < 0.3:
         # objects derived via copy / generate_* / operators are used right away: a projection, conversion or query on them
         d = W.last_derived
@@ -1048,7 +1055,7 @@ def gen_op(rng, W, step, atol_changed):
                 return {"op": rng.choice(["generate_from_var", "func_proj_physical_with_var"]),
                         "args": [rng.choice(objs), a], "p": p}
         return None
-    if r < 0.57:
+    if r < 0.54:
         pairs = []
         for (k1, k2) in sorted(COMPOSE):
             for i in by.get(k1, []):
@@ -1059,7 +1066,7 @@ def gen_op(rng, W, step, atol_changed):
             return None
         i, j = rng.choice(pairs)
         return {"op": "compose", "args": [i, j], "p": p}
-    if r < 0.63:
+    if r < 0.59:
         pairs = []
         for (k1, k2) in sorted(TENSOR):
             for i in by.get(k1, []):
@@ -1071,15 +1078,15 @@ def gen_op(rng, W, step, atol_changed):
             return None
         i, j = rng.choice(pairs)
         return {"op": "tensor", "args": [i, j], "p": p}
-    if r < 0.67:
+    if r < 0.62:
         i = rng.choice(qops)
         js = [j for j in by.get(e[i].kind, [])]
         return {"op": rng.choice(ARITH), "args": [i, rng.choice(js)], "p": p}
-    if r < 0.67 + 0.025:
+    if r < 0.645:
         bs = by.get("basis", [])
         if bs:
             return {"op": rng.choice(["basis_query", "basis_query", "basis_esys"]), "args": [rng.choice(bs)], "p": p}
-    if r < 0.67 + 0.035:
+    if r < 0.655:
         pr = [i for i in by.get("array", []) if e[i].meta.get("role") == "prob"]
         if pr:
             return {"op": "prob_helper", "args": [rng.choice(pr)], "p": p}
@@ -1090,7 +1097,9 @@ def gen_op(rng, W, step, atol_changed):
         if x < 0.45:
             return {"op": "cache_get", "args": [c], "p": {"k": rng.randrange(9)}}
         if x < 0.85:
-            return {"op": "cache_delete", "args": [c], "p": {"k": rng.randrange(1, 9)}}
+            k = rng.randrange(1, 9)
+            W.last_deleted = (c, k)
+            return {"op": "cache_delete", "args": [c], "p": {"k": k}}
         return {"op": "csys_query", "args": [c], "p": p}
     if r < 0.75:
         if atol_changed:
@@ -1835,7 +1844,42 @@ def oracle(ctx, volume=1):
 
 
 def search(ctx):
-    oracle(ctx, volume=2)
+    """a proof obligation / the correspondence broke and the oracle found nothing: the property evaluated on the
+    disagreement inputs, then one more round of histories with other seeds (bounded: the quick volume again)"""
+    for dgr in ctx.disagreements[:40]:
+        if dgr["op"] == "cache":
+            cache_ops_case(ctx, dgr["input"]["dims"], dgr["input"]["ops"])
+    if not ctx.violations or all(v["signature"] in () for v in ctx.violations):
+        pass
+    seen = {v["signature"] for v in ctx.violations}
+    nhist, nops = ((300, 12) if ctx.quick else (1500, 30))
+    workers = 1 if ctx.quick else max(1, min(12, (os.cpu_count() or 2) - 2))
+    fuzz(ctx, nhist, nops, "search", seen, workers=int(os.environ.get("C13_WORKERS", workers)))
+
+
+def cache_ops_case(ctx, dims, ops):
+    """a get / delete sequence on a fresh composite system: every built table is the pure table after every call, and
+    every getter returns the pure table"""
+    c = CompositeSystem([ElementalSystem(i, basis_for(d)) for i, d in enumerate(dims)])
+    pure = pure_tables(dims)
+    done = []
+    for o in ops:
+        k = int(o[1:])
+        done.append(o)
+        bad = None
+        if o[0] == "g":
+            t = CACHE_GET[k](c)
+            if fast_digest(t) != pure[k]:
+                bad = CACHE_ATTRS[k] + " (returned by its getter)"
+        elif CACHE_DEL[k] is not None:
+            getattr(c, CACHE_DEL[k])()
+        wrong = [a for j, a in enumerate(CACHE_ATTRS) if getattr(c, a) is not None and fast_digest(getattr(c, a)) != pure[j]]
+        if bad or wrong:
+            ctx.violate(f"C13/cache/sequence/content:{'+'.join(wrong) or CACHE_ATTRS[k]}",
+                        f"composite system with dims {dims}: after the calls {done} the tables {wrong or [bad]} differ from "
+                        f"the tables of a pristine system", {"kind": "cacheops", "dims": list(dims), "ops": list(done)})
+            return True
+    return False
 
 
 # ----------------------------------------------------------------------------- correspondence with QModel.C13
@@ -2120,6 +2164,12 @@ def replay(ctx, data):
         for pr in probs:
             print("  PROBLEM:", describe(pr, W))
         return 1 if probs else 0
+    if r["kind"] == "cacheops":
+        before = len(ctx.violations)
+        cache_ops_case(ctx, r["dims"], r["ops"])
+        for v in ctx.violations[before:]:
+            print("  PROBLEM:", v["what"])
+        return 1 if len(ctx.violations) > before else 0
     if r["kind"] == "sequence":
         bad = seq_run(r["setting"], r["loss"], r["mode"], r.get("weights"))
         for k, a, b in bad:
